@@ -13,7 +13,8 @@ Arguments OPanic {A}.
 Inductive gtype :=
 | TNone | TInt (k : ikind) | TF32 | TF64 | TComplex | TString | TBool | TNamed (name : nat)
 | TSlice (e : ety) | TArray (n : nat) | TMap (str_any : bool) | TPtr | TFunc | TChan | TStruct (id : nat)
-| TIface.                      (* an interface type (only as the element type of a Bind destination) *)
+| TIface
+| TPtrTo (tid : nat).                      (* an interface type (only as the element type of a Bind destination) *)
 
 Definition type_of (v : gval) : gtype :=
   match v with
@@ -29,6 +30,7 @@ Definition type_of (v : gval) : gtype :=
   | GArray l => TArray (length l)
   | GMap b _ _ => TMap b
   | GPtr _ _ => TPtr
+  | GPtrTo _ tid _ => TPtrTo tid
   | GFunc _ _ => TFunc
   | GChan _ _ => TChan
   | GStruct id _ => TStruct id
@@ -57,6 +59,7 @@ Definition gtype_eqb (a b : gtype) : bool :=
   | TArray n, TArray m => Nat.eqb n m
   | TMap b, TMap b' => Bool.eqb b b'
   | TStruct x, TStruct y => Nat.eqb x y
+  | TPtrTo x, TPtrTo y => Nat.eqb x y
   | _, _ => false
   end.
 
